@@ -5,7 +5,6 @@ import (
 	"fmt"
 	"net/url"
 	"sort"
-	"strings"
 
 	"github.com/buzzfeed/sso/internal/pkg/sessions"
 	"github.com/buzzfeed/sso/internal/pkg/singleflight"
@@ -79,7 +78,9 @@ func (p *SingleFlightProvider) ValidateGroup(email string, allowedGroups []strin
 func (p *SingleFlightProvider) UserGroups(email string, groups []string, accessToken string) ([]string, error) {
 	// sort the groups so that other requests may be able to use the cached request
 	sort.Strings(groups)
-	response, err := p.do("UserGroups", fmt.Sprintf("%s:%s", email, strings.Join(groups, ",")), func() (interface{}, error) {
+	// %q quotes the e-mail and every group name, so that different (e-mail, group set) questions can
+	// never share a key (an e-mail containing ':' or a group name containing ',' used to collide)
+	response, err := p.do("UserGroups", fmt.Sprintf("%q:%q", email, groups), func() (interface{}, error) {
 		return p.provider.UserGroups(email, groups, accessToken)
 	})
 	if err != nil {
